@@ -161,7 +161,7 @@ func runC06(w *World, r *Report) {
 	r.Rule("C06-R1", "error-sentinel nil safety", "for repository functions returning a bare pointer with a literal-nil return path, every dereference of the result at a call site in reader/writer/server is dominated by the non-nil outcome of a nil test", 1)
 	r.Rule("C06-R2", "error events name a task", "every api.ReplicateAPIEvent literal with EventType ReplicateError stores TaskID from a task-id value (parameter, field or context getter), not a constant", 2)
 	r3 := r.Rule("C06-R3", "no reachable panic on the replication path", "from every goroutine literal / go target / pool task of core/reader, core/writer and server, no builtin panic, log.Panic*, log.Fatal* or os.Exit is reachable in the VTA call graph unless allow-listed with a reason", 10)
-	r.Rule("C06-R4", "no silent skip", "handlePack: the error of getCollectionTargetInfo / getPartitionID(s) / the barrier retry reaches sendErrEvent and a return; the loop is continued before the test only on edges conditioned on drop state or on the callee's `-1` (error-free) sentinel", 4)
+	r.Rule("C06-R4", "no silent skip", "handlePack: the error of getCollectionTargetInfo / getPartitionID(s) / the barrier retry reaches sendErrEvent and a return; the loop is continued before the test only on edges conditioned on drop state or on the callee's `-1` (error-free) sentinel", 5)
 	r.Rule("C06-R5", "the failing item's task is paused, then the loop is left", "each pauseTaskWithReason call in startReplicateAPIEvent / startReplicateDMLMsg takes the task id of the item being processed and is followed by a return on every path", 10)
 
 	replPkgs := map[string]bool{pkgReader: true, pkgWriter: true, pkgServer: true, pkgAPI: true, pkgUtil: true, pkgMeta: true, pkgStore: true, pkgPacker: true}
@@ -430,6 +430,73 @@ func runC06(w *World, r *Report) {
 			r.Check(okRep, "C06-R4", cons, c.Pos(), "tested; the error branch calls sendErrEvent and returns", "the error branch does not both report (sendErrEvent) and return")
 		})
 		_ = fam
+	}
+
+	// ---------- R4b: the `-1` sentinel of getPartitionID is error-free, errors come with a non-sentinel value
+	for _, name := range []string{"getPartitionID"} {
+		fn := w.Func(pkgReader, "replicateChannelHandler", name)
+		cons := "(*replicateChannelHandler)." + name + " | error returns never carry the skip sentinel"
+		if fn == nil {
+			r.Undecided("C06-R4", cons, 0, "anchor not found")
+			continue
+		}
+		okS, n := true, 0
+		eachInstr(fn, func(in ssa.Instruction) {
+			ret, isR := in.(*ssa.Return)
+			if !isR || len(ret.Results) != 2 {
+				return
+			}
+			ev := returnedValue(ret, 1)
+			if ev == nil || isNilConst(ev) {
+				return
+			}
+			n++
+			c, isC := returnedValue(ret, 0).(*ssa.Const)
+			if !isC || c.Value == nil || c.Value.ExactString() == "-1" {
+				okS = false
+			}
+		})
+		r.Check(okS && n > 0, "C06-R4", cons, fn.Pos(), fmt.Sprintf("%d error return(s), each with a non-sentinel constant id", n), "an error return carries -1 (or a computed id): handlePack tests `== -1` before the error and silently skips the message instead of pausing the task")
+	}
+
+	// ---------- R6: a pause always stops the task's readers, whatever the store says
+	r.Rule("C06-R6", "pausing stops the readers regardless of the store", "in pauseTaskWithReason the removal and invocation of the task's quit function is reachable from the failure outcome of the persisted update (only a task unknown in memory returns early)", 1)
+	if pf := w.Func(pkgServer, "MetaCDC", "pauseTaskWithReason"); pf != nil {
+		var upd, gar *ssa.Call
+		eachInstr(pf, func(in ssa.Instruction) {
+			if c, ok := in.(*ssa.Call); ok {
+				if callSym(c.Common()) == (sym{pkgStore, "", "UpdateTaskState"}) {
+					upd = c
+				}
+				if callSym(c.Common()).name == "GetAndRemove" {
+					gar = c
+				}
+			}
+		})
+		ok := false
+		if upd != nil && gar != nil {
+			ok = true
+			for _, b := range pf.Blocks {
+				cond, t, f, isIf := ifSuccs(b)
+				if !isIf {
+					continue
+				}
+				bo, isB := cond.(*ssa.BinOp)
+				if !isB || bo.X != ssa.Value(upd) || !isNilConst(bo.Y) {
+					continue
+				}
+				fail := t
+				if bo.Op == token.EQL {
+					fail = f
+				}
+				if !(fail == gar.Block() || blockReach(fail, nil)[gar.Block()]) {
+					ok = false
+				}
+			}
+		}
+		r.Check(ok, "C06-R6", "(*MetaCDC).pauseTaskWithReason | readers stopped also when the store rejects the update", pf.Pos(), "the quit function is reached from the store-failure edge", "when the metadata store rejects the Paused update the function returns before stopping the task's readers: the failing task keeps emitting and stays Running in memory")
+	} else {
+		r.Undecided("C06-R6", "pauseTaskWithReason", 0, "anchor not found")
 	}
 
 	// ---------- R5
